@@ -121,3 +121,15 @@ def view_judge_line(x):
                                    pairs_str(f["get"]), pairs_str(f["post"]), pairs_str(f["cookies"]), hxd(f["body"]),
                                    "1" if (r.script == b"/f" and r.body) else "0",
                                    kv["env"], kv["get"], kv["post"], kv["cookies"], kv["body"]]))
+
+
+def pick_diverse(bad, n):
+    """representatives of the failing cases: corpus witnesses first, then one per distinct reason, then the rest"""
+    seen, first, rest = set(), [], []
+    for item in sorted(bad, key=lambda it: (not it[0].tag.startswith("corpus"), len(it[0].data()))):
+        key = (item[1][:60], item[0].tag if item[0].tag.startswith("corpus") else "", item[0].api)
+        if key in seen:
+            rest.append(item)
+        else:
+            seen.add(key); first.append(item)
+    return (first + rest)[:n]
